@@ -191,8 +191,9 @@ def check_state(scn, st, corrupt=False):
     want_cont = [filled] if filled is not None and expected[filled] != 0 else []
     if containers != want_cont:
         bad.append('volumes generated for filled level-0 cells %s, expected %s' % (containers, want_cont))
-    m = re.search(r'NOTE: the following cells have been omitted.*?\[(.*?)\]', r.stdout, re.S)
-    noted = sorted(int(x) for x in m.group(1).split(',') if x.strip()) if m else []
+    # the end-of-run note: the paragraph that starts with NOTE, whatever its wording and layout
+    m = re.search(r'\bNOTE\b(.*?)(\n[ \t]*\n|\Z)', r.stdout, re.S)
+    noted = sorted(int(x) for x in re.findall(r'(?<![\w.])\d+(?![\w.])', m.group(1))) if m else []
     if noted != dropped:
         bad.append('NOTE lists %s, expected %s' % (noted, dropped))
     if bad:
